@@ -13,6 +13,7 @@ let op_of_tok tok =
   | 't' -> Model.OReadTyped (arg (), nat_of_int 1)
   | 'k' -> Model.OClone (arg ())
   | 's' -> Model.OSeek (arg (), nat_of_int 0)
+  | 'z' -> Model.OSeek (arg (), nat_of_int 0)   (* Reset = reposition at row 0: ends the batch, releases the page, keeps detach and closed *)
   | 'c' -> Model.OClose (arg ())
   | 'x' -> Model.OChurn (nat_of_int 77)
   | 'g' -> Model.OGC
